@@ -18,7 +18,7 @@ func specIsDigit(c byte) bool { return '0' <= c && c <= '9' }
 
 // specDigitRun is the number of consecutive digits of in[i:end].
 //
-//@ opaque
+// @ opaque
 func specDigitRun(in string, i, end int) int {
 	if 0 <= i && i < end && end <= len(in) && specIsDigit(in[i]) {
 		return 1 + specDigitRun(in, i+1, end)
@@ -74,18 +74,18 @@ func specDurationOK(in string) bool {
 	return il > 0 || k >= 1
 }
 
-//@ props C23
-//@ mode int
-//@ loop 1 invariant viewOf(b, input, size-1-len(b)) && len(intp) == n+len(b) && n >= 1 && size == len(input)
-//@ loop 1 invariant size-1-len(b) == specSignLen(input)+n
-//@ loop 1 invariant specDigitRun(input, specSignLen(input), size-1) == n+specDigitRun(input, specSignLen(input)+n, size-1)
-//@ loop 1 decreases len(b)
-//@ loop 2 invariant viewOf(b, input, size-1-len(b)) && !sameBase(b, frac[:]) && 0 <= n && n <= 9 && size == len(input)
-//@ loop 2 invariant size-1-len(b) == specSignLen(input)+specIntLen(input)+1+n
-//@ loop 2 invariant specDigitRun(input, specSignLen(input)+specIntLen(input)+1, size-1) == n+specDigitRun(input, specSignLen(input)+specIntLen(input)+1+n, size-1)
-//@ loop 2 decreases len(b)
-//@ loop 3 invariant n <= i && i <= 9
-//@ loop 3 decreases 9-i
+// @ props C23
+// @ mode int
+// @ loop 1 invariant viewOf(b, input, size-1-len(b)) && len(intp) == n+len(b) && n >= 1 && size == len(input)
+// @ loop 1 invariant size-1-len(b) == specSignLen(input)+n
+// @ loop 1 invariant specDigitRun(input, specSignLen(input), size-1) == n+specDigitRun(input, specSignLen(input)+n, size-1)
+// @ loop 1 decreases len(b)
+// @ loop 2 invariant viewOf(b, input, size-1-len(b)) && !sameBase(b, frac[:]) && 0 <= n && n <= 9 && size == len(input)
+// @ loop 2 invariant size-1-len(b) == specSignLen(input)+specIntLen(input)+1+n
+// @ loop 2 invariant specDigitRun(input, specSignLen(input)+specIntLen(input)+1, size-1) == n+specDigitRun(input, specSignLen(input)+specIntLen(input)+1+n, size-1)
+// @ loop 2 decreases len(b)
+// @ loop 3 invariant n <= i && i <= 9
+// @ loop 3 decreases 9-i
 func contract_parseDuration(input string) (secs int64, nanos int32, ok bool) {
 	ensures(imp(ok, specDurationOK(input)))
 	return
@@ -122,9 +122,9 @@ func specDurationWritable(secs, nanos int64) bool {
 
 // marshalDuration writes a value exactly when it is a valid Duration.
 //
-//@ props C23
-//@ mode int
-//@ nopanic
+// @ props C23
+// @ mode int
+// @ nopanic
 func contract_encoder_marshalDuration(e encoder, m protoreflect.Message) (err error) {
 	modifiesAll()
 	ensures(iff(err == nil, specDurationWritable(specFieldInt(m, 1), specFieldInt(m, 2))))
@@ -137,9 +137,9 @@ func specTimestampWritable(secs, nanos int64) bool {
 	return -62135596800 <= secs && secs <= 253402300799 && 0 <= nanos && nanos <= 999999999
 }
 
-//@ props C23
-//@ mode int
-//@ nopanic
+// @ props C23
+// @ mode int
+// @ nopanic
 func contract_encoder_marshalTimestamp(e encoder, m protoreflect.Message) (err error) {
 	modifiesAll()
 	ensures(iff(err == nil, specTimestampWritable(specFieldInt(m, 1), specFieldInt(m, 2))))
